@@ -468,6 +468,13 @@ func Run[C any](t *testing.T, s Spec[C]) {
 		if failed, msg := runCase(r, nil, &s, c); failed {
 			t.Errorf("REPLAY-FAIL %s", msg)
 		} else {
+			r.mu.Lock()
+			for sig, n := range r.s.Excluded {
+				if n > 0 {
+					fmt.Printf("REPLAY-KNOWN %s\n", sig)
+				}
+			}
+			r.mu.Unlock()
 			fmt.Println("REPLAY-PASS")
 		}
 		return
